@@ -82,7 +82,7 @@ theorem stallProbesGo_par (pkt : Bytes) (seq : Option Nat) (now sel : Nat) (fn0 
       · -- the counter fires: a copy is queued
         have hd : l.stallProbeDue.2 = true := by rw [d1]; simpa using hdue
         simp only [hd, Bool.not_true, Bool.false_eq_true, if_false]
-        have hq := queueThenFlush_fx l.stallProbeDue.1 (pkt, seq, now) now fn fn0 hfn
+        have hq := queueThenFlush_fx (fa := fa) l.stallProbeDue.1 (pkt, seq, now) now fn fn0 hfn
         dsimp only at hq
         have happ : probeApp (pkt, seq, now) sel i l = [(pkt, seq, now)] := by
           unfold probeApp; rw [if_pos ⟨hc, hdue⟩]
@@ -151,19 +151,14 @@ theorem flushGo_par (now : Nat) (fn0 : List Nat) :
     · rw [if_pos hc]
       dsimp only
       obtain ⟨s1, s2, s3, s4, s5, s6, s7⟩ := sendConnectionBatch_spec l now fn
-      have hsub := sendConnectionBatch_fn_subset l now fn
+      have hsub := sendConnectionBatch_fn_subset (fa := fa) l now fn
       obtain ⟨ih1, ih2⟩ := ih (i + 1) (sendConnectionBatch fa l now fn).2.2.2 (fun y hy => hfn y (hsub y hy))
       refine ⟨?_, ih2⟩
       rcases s7 with ⟨w1, w2, w3⟩ | ⟨w1, w2, w3, w4, w5⟩
       · rw [w1]
         exact Par.cons ⟨⟨s2, Or.inr (Or.inl ⟨s1, by simp⟩)⟩, s1, s3⟩ ih1
       · rw [w1]
-        have : Par (RFlush fn0) i (l :: rest)
-            ((sendConnectionBatch fa l now fn).1 :: (flushGo fa now rest (sendConnectionBatch fa l now fn).2.2.2).1)
-            (([] : List Bytes).map (fun x => (l.core.connId, x)) ++
-              (flushGo fa now rest (sendConnectionBatch fa l now fn).2.2.2).2.1) :=
-          Par.cons ⟨⟨s2, Or.inr (Or.inr ⟨s1, rfl, hfn _ w4⟩)⟩, s1, s3⟩ ih1
-        simpa using this
+        exact Par.cons ⟨⟨s2, Or.inr (Or.inr ⟨s1, ⟨failPrefix fa l.core.connId (fn.count l.core.connId), by simp⟩, hfn _ w4⟩)⟩, s1, s3⟩ ih1
     · rw [if_neg hc]
       dsimp only
       have hq : l.queue = [] := by
@@ -218,7 +213,7 @@ theorem forwardVia_spec (s : Sys F) (sel : Nat) (pkt : Bytes) (seq : Option Nat)
   unfold forwardVia
   rw [hl]
   dsimp only
-  have hq := queueThenFlush_fx l (pkt, seq, now) now s.failNext s.failNext (fun _ h => h)
+  have hq := queueThenFlush_fx (fa := s.failAfter) l (pkt, seq, now) now s.failNext s.failNext (fun _ h => h)
   dsimp only at hq
   by_cases hflush : (l.queueDataPacket pkt seq now).2 = true
   · rw [if_pos hflush]
